@@ -521,8 +521,9 @@ class IkeSa(object):
 
     def _generate_ike_sa_negotiation_request(self):
         # create the Payload SA
-        self.chosen_proposal = self.configuration.proposal
-        self.chosen_proposal.spi = self.my_spi
+        # work on a copy: the configured proposal is shared by every IKE_SA of this connection
+        self.chosen_proposal = Proposal(self.configuration.proposal.num, self.configuration.proposal.protocol_id,
+                                        self.my_spi, list(self.configuration.proposal.transforms))
         payload_sa = PayloadSA([self.chosen_proposal])
 
         # generate payload NONCE
@@ -598,8 +599,9 @@ class IkeSa(object):
         result.append(PayloadTSr(child_sa.tsr))
 
         # generate Payload SA
-        child_sa.proposal.spi = child_sa.inbound_spi
-        result.append(PayloadSA([child_sa.proposal]))
+        # work on a copy: the configured proposal is shared by every CHILD_SA of this policy
+        result.append(PayloadSA([Proposal(child_sa.proposal.num, child_sa.proposal.protocol_id, child_sa.inbound_spi,
+                                          list(child_sa.proposal.transforms))]))
 
         # generate Payload KE (if required)
         try:
